@@ -38,7 +38,7 @@ def sany(modules):
 
 _RE_STATES = re.compile(r"(\d+) states generated, (\d+) distinct states found, (\d+) states left on queue")
 _RE_DEPTH = re.compile(r"The depth of the complete state graph search is (\d+)")
-_RE_INV = re.compile(r"Error: Invariant (\S+) is violated")
+_RE_INV = re.compile(r"Error: Invariant (\S+) is violated|Error: The invariant of (\S+) is equal to FALSE")
 _RE_PROP = re.compile(r"Error: Action property (\S+) is violated|Error: Temporal properties were violated")
 _RE_COV = re.compile(r"^<(\w+) line \d+, col \d+ to line \d+, col \d+ of module (\w+)>: (\d+):(\d+)", re.M)
 
@@ -79,7 +79,7 @@ def run_tlc(module, cfg, tag, workers=16, timeout=1200, env=None, extra=(), xmx=
         res["depth"] = int(m.group(1))
     m = _RE_INV.search(out)
     if m:
-        res["violated"] = m.group(1)
+        res["violated"] = m.group(1) or m.group(2)
     else:
         m = _RE_PROP.search(out)
         if m:
